@@ -6,7 +6,7 @@ import os
 import sys
 
 from mc import decobs, shapes
-from mc.core import pmap, short_hash
+from mc.core import pmap, short_hash, run_tasks
 from props.chaincommon import ast_of_tables, tables_of_ast
 from props.c09_chains import MASTERS, master
 from ref import chains, decmodel
@@ -181,11 +181,9 @@ def run(ctx):
     order = list(range(len(items)))
     ctx.rng.shuffle(order)
     packs = [[items[j] for j in order[i:i + 40]] for i in range(0, len(order), 40)]
-    for r in pmap(work_pack, packs, ctx.workers):
-        ctx.absorb(r)
+    run_tasks(ctx, work_pack, packs)
     small = [(t, a) for t in spines for a in ALIAS_VARIANTS]
-    for r in pmap(work_unpacked, [small[i:i + 8] for i in range(0, len(small), 8)], ctx.workers):
-        ctx.absorb(r)
+    run_tasks(ctx, work_unpacked, [small[i:i + 8] for i in range(0, len(small), 8)])
     ctx.count(states=len(items), transitions=sum(sum(len(v) + 1 for v in t.values()) for t, _a in items))
     ctx.part("generated", scenarios=len(items), unpacked=len(small), alias_variants=list(ALIAS_VARIANTS), complete=True)
     if ctx.thorough:
